@@ -37,6 +37,7 @@ def main() -> int:
                     break
         finally:
             sh("git -C /repo checkout -- .")
+            sh(f"git -C {ROOT} checkout -- evidence")      # evidence written while a seeded change was applied is not evidence
         res[d.name] = got
         print(d.name, got, flush=True)
     missed = [k for k, v in res.items() if not (isinstance(v, list) and any(rc == 1 for _, rc, _ in v))]
